@@ -26,7 +26,8 @@ Props(P, T, e) ==
        <<"C15", P3_NeverStoppedForWorse(P, T, e.e = "rm")>>,
        <<"C15", (e.e = "sock" /\ e.st \in ErrStates /\ P.sst[<<e.g, e.i>>] # e.st /\ P.sst[<<e.g, e.i>>] # "SHUTDOWN")
                    => P4_FailoverStartsBest(P, T, e.g)>>,
-       <<"C15", ObsOK(T, e)>>, <<"C15", EstReportsOK(P, T, e)>>})
+       <<"C15", ObsOK(T, e)>>, <<"C15", EstReportsOK(P, T, e)>>,
+       <<"EXT", ("insync" \in DOMAIN e) => e.insync = InSync(T)>>})          \* beyond C15: rtr_mgr_conf_in_sync
 Step(e) ==
   CASE e.e \in {"pre", "end"} -> [S |-> S, bad |-> {}]
     [] e.e = "init" ->
@@ -49,6 +50,7 @@ TraceNext == /\ l <= Len(JTrace)
              /\ LET r == Step(JTrace[l]) IN S' = r.S /\ bad' = r.bad
              /\ l' = l + 1
 TraceSpec == TraceInit /\ [][TraceNext]_tvars
-OK_C15 == bad = {}
+OK_C15 == "C15" \notin bad
+OK_EXT == "EXT" \notin bad          \* conformance beyond the listed properties (reported in the evidence, never a violation)
 TraceAccepted == TLCGet("stats").diameter - 1 = Len(JTrace)
 =============================================================================
